@@ -173,7 +173,7 @@ reg("C10", "exploration",
     "scoped PDU / PDU lengths through 100..300 on both sides; Hypothesis generates multi-session cases in one process (same "
     "password with the other hash, same password towards other engines, same user name with another password, engine ids with "
     "runs of zero octets, context engine ids) to defeat wrongly keyed caches.",
-    "Trusts lib/vagent.py (validated against the RFC 3414 A.3 vectors at start-up). Known finding reencoded_len_127 is excluded only when trigger AND signature match and is re-demonstrated from known/C10-reencoded-len-127.json on every run.",
+    "Trusts lib/vagent.py (validated against the RFC 3414 A.3 vectors at start-up). The former known finding reencoded_len_127 was repaired (fix 8e2985a); a recurrence is reported as a violation.",
     "differential testing against an independent RFC 3414 implementation: Hypothesis multi-session cases + exhaustive password-length and message-length sweeps",
     "DESIGN.md section 3, C10")
 
@@ -214,8 +214,8 @@ reg("C12", "exploration",
     "instead of Report). Oracle: the first datagram of a new client is a well-formed discovery probe; later requests carry the "
     "discovered engine id as security engine id and (unless configured) context engine id; a foreign discovery msgID raises "
     "InvalidResponseId and nothing else is sent; the client stays usable afterwards; and EVERY request succeeds however far the "
-    "agent's clock has advanced. Failures after an agent reboot are attributed to the known finding stale_boots_after_reboot only "
-    "when trigger (reboot since the client's discovery, auth level) and signature (SnmpError 'Not in time window') both match.",
+    "agent's clock has advanced and however often the agent rebooted in between (the former known finding stale_boots_after_reboot "
+    "was repaired by fix ad4b649; its trigger/signature attribution stays in the check but nothing is listed any more).",
     "Trusts lib/vagent.py's RFC 3414 timeliness check (150 s window on boots/time); only API outcomes and datagrams are judged.",
     "model-based stateful property testing (Hypothesis histories) on a virtual clock shared by agent and client",
     "DESIGN.md section 3, C12")
